@@ -76,6 +76,8 @@ structure Cfg where
   dispatchDepth : Nat := 48
   /-- bound on the `while new_token is not None` loop of `mainLoop` (→ `PyErr.outOfFuel`) -/
   reprocessFuel : Nat := 512
+  /-- `HTMLParser(strict=…)` : every recorded parse error is raised as `ParseError` right after it was appended -/
+  strict : Bool := false
   deriving Repr
 
 /-- `self.innerHTML` is used both as a string and as a truth value -/
@@ -336,17 +338,25 @@ def setInsertFromTable (b : Bool) : M Unit := modify fun st => { st with insertF
 /-- `self.parser.innerHTML` as a truth value -/
 def innerHTMLTruthy : M Bool := do return (← getCfg).innerHTMLTruthy
 
-/-- `HTMLParser.parseError(errorcode, datavars)` (html5parser.py 319-325); the stream
-position is not modelled here and `strict` is `False`. -/
-def parseError (code : String) (vars : List (String × Str) := []) : M Unit :=
+/-- the tail of `HTMLParser.parseError` (html5parser.py 328-329): `if self.strict: raise ParseError(E[errorcode] % datavars)`.
+The message is not modelled (C16_sites: every site's template formats); the exception carries the error code. -/
+def raiseIfStrict (code : Str) : M Unit := do
+  if (← getCfg).strict then throw (.parseError code)
+
+/-- `HTMLParser.parseError(errorcode, datavars)` (html5parser.py 323-329): the error is appended to `self.errors`,
+then raised when `strict`; the stream position is not modelled here. -/
+def parseError (code : String) (vars : List (String × Str) := []) : M Unit := do
   modify fun st => { st with errors := st.errors.push (lit code, vars.map fun p => (lit p.1, p.2)) }
+  raiseIfStrict (lit code)
 
 /-- `self.parser.parseError()` with the default error code -/
-def parseErrorDefault : M Unit :=
+def parseErrorDefault : M Unit := do
   modify fun st => { st with errors := st.errors.push (Gen.Lit.parseErrorDefaultCode, []) }
+  raiseIfStrict Gen.Lit.parseErrorDefaultCode
 
-def parseErrorS (code : Str) (vars : List (Str × Str)) : M Unit :=
+def parseErrorS (code : Str) (vars : List (Str × Str)) : M Unit := do
   modify fun st => { st with errors := st.errors.push (code, vars) }
+  raiseIfStrict code
 
 /-- `token["selfClosingAcknowledged"] = True` -/
 def acknowledgeSelfClosing (d : TagData) : M Unit :=
